@@ -992,6 +992,7 @@ func c05Strings(maxLen int) []string {
 
 func c05Run(c *core.Ctx) {
 	debug.SetGCPercent(800) // the probes produce much short-lived garbage (failed number parses)
+	c05bRun(c)              // part 2: subscripts written as literals / variables / computed under every CONVFMT (c05b.go)
 	r := c05NewRunner()
 	defer r.cleanup()
 	maxLen, shortLen := 4, 2
@@ -1181,7 +1182,8 @@ func init() {
 	core.Register(&core.Check{
 		ID:    "C05",
 		Level: "model_checking",
-		Rule: "bounded-exhaustive enumeration against a reference value model: every string of length <= 4 (thorough 5) over {0 1 9 . + - e E x space} plus a fixed list of ~200 exotic strings " +
+		Rule: "part 2: 12 numbers x 7 CONVFMT values, each used as a subscript written as a literal / held in a variable / computed / converted with \"\", alone and in a multi-dimensional subscript, with in and delete through the other spelling and again after CONVFMT changes: all spellings must name the same element; " +
+			"part 1: bounded-exhaustive enumeration against a reference value model: every string of length <= 4 (thorough 5) over {0 1 9 . + - e E x space} plus a fixed list of ~200 exotic strings " +
 			"(ASCII/non-ASCII blanks, hex, inf/nan, overflow, underflow, long digits), delivered through every provenance (field, $0, getline forms, split, ARGV, ENVIRON, -v, operand, constant, computed string/number, native number, unset); " +
 			"for each value: 7 truth-test forms, 3 arithmetic forms, string conversion, and the 6 comparison operators x?y and y?x as values plus as if / do-while / ternary conditions against ~130 partners of every kind " +
 			"(strnum, string, number, unset, own number, own text, numbers any lenient reading of the text could mean); all pairs of strings of length <= 3 as strnum vs strnum; 56 boundary numbers x 9 CONVFMT; " +
